@@ -44,6 +44,11 @@ def build_cases(tier, seed):
             # a co-simulation client adds requests of no fleet between calls (built-in control: "at most one vehicle per request")
             prof["fleets"] = [2, 3][(i // 4) % 2]
             opts = {"inject_requests": {"every": 5, "public": True}, "cosim_ops": {"every": 13, "kinds": ["add_vehicle"]}}
+        if i % 8 == 1 or i % 16 == 7:
+            # a client that takes vehicles out and puts them back between calls (built-in / interruption-only control)
+            if i % 8 == 1:
+                ctrl = BUILTIN
+            opts = {"cosim_ops": {"every": 3, "kinds": ["pop_readd"]}}
         cases.append(trace_case("C17", i, s, prof, ctrl, steps, ["C17"], opts=opts))
     cases += systematic_cases("C17", tier, seed)
     if tier == "thorough":
